@@ -24,7 +24,7 @@ BUDGET_S = {"quick": 240, "thorough": 2400}
 EXTRA_BUILDS = {"thorough": ["rel", "asan"]}
 GENERIC_REL = False  # own release stage below
 MIN_HITS = {
-    'quick': {"program": 151467, "allbytes": 1280, "random_tokens": 1920, "constructed": 858, "tx_bound": 448, "lib_err": 23946, "lib_ok": 126741, "post_error_state_checked": 23946, "step_vs_run": 150687},
+    'quick': {"program": 151475, "allbytes": 1280, "random_tokens": 1920, "constructed": 858, "tx_bound": 448, "lib_err": 23954, "lib_ok": 126741, "post_error_state_checked": 23954, "step_vs_run": 150695},
     'thorough': {"program": 1078522, "allbytes": 1536, "random_tokens": 614400, "constructed": 153624, "tx_bound": 76800, "lib_err": 694087, "lib_ok": 314920, "step_vs_run": 1009008},
 }
 HOSTILE = [b"", b"\x00", b"\x80", b"\x01", b"\x81", b"\x02", b"\x7f", b"\xff", b"\xff\xff\xff\x7f", b"\xff\xff\xff\xff", b"\x00\x00\x00\x80\x00", b"\xff" * 9, b"\x01\x00\x00\x00\x00\x00", bytes(33), b"\x02" + bytes(32), bytes(71), b"\x30\x06\x02\x01\x01\x02\x01\x01\x41"]
@@ -119,6 +119,11 @@ def cases(ctx):
     if S % 16 == 1:
         # stacks of more than 100 MB: a 50-byte element doubled 22 times, then an operation that must fail (so that the post-error state is observed)
         yield {"k": "script", "hex": (bytes([50]) + bytes(range(50)) + b"\x76\x7e" * 22 + b"\x6b\x6c\x6c").hex(), "tag": "huge_stack", "compact": True}
+    if S % 16 == 8:
+        # a conditional whose predicate is a ~800 KB / ~1.6 MB element (built by doubling), then something that fails
+        for dbl in (14, 15):
+            for opn in (99, 100):
+                yield {"k": "script", "hex": (bytes([50]) + bytes(range(50)) + b"\x76\x7e" * dbl + bytes([opn]) + b"\x51\x68\x6b\x6c\x6c").hex(), "tag": "huge_predicate", "compact": True}
     if S % 16 == 0:
         yield {"k": "bits", "bits": [{"push": "ab" * 100000}, {"op": 118}, {"op": 126}, {"op": 130}], "tag": "constructed"}
         yield {"k": "bits", "bits": [{"if": 99, "pass": [], "fail": None}], "tag": "constructed"}
@@ -257,7 +262,11 @@ def assess(ctx, case, nb, r, build):
         ctx.hit("make_err")
         return
     if "ok" not in r:
-        ctx.viol("interpreter request failed: %s%s" % ([q for q in ("panic", "timeout") if q in r][:1], tag), {"resp": str(r)[:300]})
+        if "timeout" in r:
+            # the supervisor's wall-clock watchdog fired (heavy program, loaded machine, interpreter under Miri): never a verdict
+            ctx.inconclusive.append("watchdog fired on an interpreter request%s" % tag) if build in (None, "chk") else ctx.note("watchdog fired on an interpreter request%s (no verdict)" % tag)
+            return
+        ctx.viol("interpreter request failed: %s%s" % ([q for q in ("panic",) if q in r][:1], tag), {"resp": str(r)[:300]})
         return
     o = r["ok"]
     if "make_panic" in o:
@@ -301,6 +310,14 @@ def assess(ctx, case, nb, r, build):
             ctx.viol("consuming the interpreter through an iterator adaptor (take + collect) panics: %s @ %s%s" % (C09.norm(co["panic"]["msg"]), C09.short_file(co["panic"]["file"]), tag), {})
         elif co["n_ok"] != s["n_ok"]:
             ctx.viol("consuming the interpreter through an iterator adaptor yields a different number of states than a next() loop%s" % tag, {"collect": co["n_ok"], "loop": s["n_ok"]})
+    ae = o.get("after_error")
+    if ae is not None:
+        ctx.ev()
+        ctx.hit("continued_after_error")
+        if ae["run_again"] != "err" or ae["next_again"] != "err":
+            ctx.viol("run() / next() on an interpreter that stopped with an error no longer fails%s" % tag, {"after": str(ae)[:300]})
+        elif ae["post"] != b["post"]:
+            ctx.viol("asking an interpreter that stopped with an error to continue changes its stacks%s" % tag, {"after": str(ae["post"])[:200], "before": str(b["post"])[:200]})
     af = o.get("after_finish")
     if af is not None:
         ctx.ev()
@@ -361,11 +378,11 @@ def extra_stages(tier, seed, res):
     per = {}
     try:
         for case in cases(ctx):
-            if case["tag"] in ("tx_bound", "tx_bound_conditional"):
-                continue  # EC operations cost seconds each under Miri
+            if case["tag"] in ("tx_bound", "tx_bound_conditional", "huge_stack", "huge_predicate", "long") or case.get("compact"):
+                continue  # EC operations / megabyte-sized elements cost seconds to minutes each under Miri
             if len(str(case)) > 1500:
                 continue
-            lim = 900 if case["tag"] == "c14exh" else 300
+            lim = 600 if case["tag"] == "c14exh" else 200
             if per.get(case["tag"], 0) >= lim:
                 continue
             per[case["tag"]] = per.get(case["tag"], 0) + 1
